@@ -8,6 +8,8 @@ git apply $PATCH || { echo APPLY-FAILED; exit 2; }
 cd /verif
 for pid in "$@"; do
   echo "=== check $pid"
+  cp evidence/$pid.json /var/tmp/evidence_$pid.keep 2>/dev/null      # a try must not leave the evidence of a mutated tree behind
   bin/xv check $pid 2>&1 | grep -v "^WARNING conda" | grep "VIOLATION\|UNDECIDED\|FAILED OBLIGATION\|^property=" | cut -c1-330
   echo "exit=${PIPESTATUS[0]}"
+  [ -f /var/tmp/evidence_$pid.keep ] && mv /var/tmp/evidence_$pid.keep evidence/$pid.json
 done
